@@ -30,6 +30,15 @@ CHECKS = {
  "C19": dict(engine="inputs", cat="exploration", tech="bounded-exhaustive input enumeration: 15^4 x 15 boundary grid, all 65536 ports, all (c,d) of /16s, IPv6 classes, all one-site mutations of valid renderings, every dictionary word at the ends of word strings, cross-component producer x consumer table",
    text="For every address of the declared grids: four-word round trip, every separator/case variant, Display->FromStr, serde JSON/postcard cycles; every library-produced rendering handed to every directly callable consumer (FromStr, Config bootstrap addresses, DhtCoreEngine::add_node gate observed differentially). Right level: the property quantifies over inputs; the boundary neighbourhoods are finite and enumerated.",
    note="the 2^48 space beyond the grids is not claimed; consumers private to DhtNetworkManager are exercised by the netsim checks.", ref="3/C19"),
+ "C03": dict(engine="netsim", cat="model_checking", tech="stateless exploration of real DhtNetworkManager networks over an in-memory socket: all put/get operation sequences x all connected graphs x silent subsets, default schedule plus single delivery deviations on the small items, ground-truth store oracle",
+   text="All sequences (quick <=2, thorough <=3 operations) of put / get / put_with_targets issued from every node over two keys and the value sizes 0, 8, 512 and 513 bytes, on every connected graph of N<=3 (thorough 4) real nodes with every single (thorough: every) subset of peers silent; after every operation every node's local store is probed. Clauses: local, replica, targets (differential against the node's own lookup + never addresses itself), get provenance, not-found completeness, 512-byte limit on every store path (manager put, remote PUT handler, core engine request handler and store()). Right level: quantifies over topologies, histories and fault subsets.",
+   note="operations of one history run sequentially; concurrency is C20's subject.", ref="3/C03"),
+ "C04": dict(engine="netsim", cat="model_checking", tech="exhaustive enumeration of adversarial event sequences (depth-bounded) against one real node with scripted peers via raw-frame injection; reference-model comparison of request outcomes and pending-table sizes after every event",
+   text="One real node with two scripted connected peers and an unconnected identity; every non-empty subset of {DHT ping, DHT find-node, application request/response} is started (with and without the socket send held, which opens the window between registration and hand-over to the wire); then every event sequence up to the tier length over {correct reply, same id from another peer, from an unconnected identity, unknown id, no result, id echoed as request/broadcast/error, id on the other protocol, abort, timeout, release} is applied; a 256-slot cap family with completed/aborted requests. Right level: the property quantifies over interleavings of sends, replies, timeouts and cancellations.",
+   note="schedules are sequences of harness-chosen events between quiescent points of a single-threaded runtime; preemption inside await-free code is not explored.", ref="3/C04"),
+ "C20": dict(engine="netsim", cat="model_checking", tech="stateless deviation-bounded DFS over delivery schedules of concurrent operations on real DhtNetworkManagers, with stop() and peer-silencing as scheduler choices at every choice point; liveness horizon on the paused virtual clock",
+   text="1..2 (thorough 3) concurrent client operations from {find_node, put, get, ping} on one or two nodes of every connected graph of N<=3 (thorough: plus 4-node families) while the other nodes serve them; every single deviation (out-of-order delivery, drop, early timeout, stop() on any node, a peer silent from now on) at every choice point of the default execution (two deviations on the 2-node items in thorough); full meshes of 6..12 nodes in the default environment. Clauses: every operation completes within 21 x (dial + request timeout) of virtual time, stop() returns within (peers+1) x timeout, a stopped node serves no request and sends none. Right level: quantifies over schedules and fault timings.",
+   note="liveness is judged on the paused tokio clock: a quiescent runtime with an unfinished operation and no timer is a deadlock; transport shutdown is the caller's job and not judged.", ref="3/C20"),
  "C06": dict(engine="crash", cat="fault_enumeration", tech="exhaustive crash-point and torn-write enumeration over operation histories of the real PersistentStateManager, reference-model oracle, second crash/restart cycle",
    text="Every history over {upsert, delete, batch(2), checkpoint} up to the tier length (quick 4, thorough 5) is executed on the real manager under several flush/rotation/clock configurations; every instrumented step of write/rotate/checkpoint inside the last operation and every byte-prefix of every append is a crash image; each image is reopened by a fresh manager and compared with the prefix-closed reference model; from every recovered state every one-operation extension plus clean restart is run and transaction ids inspected. Right level: the property quantifies over crash points and histories.",
    note="crash model = process death (written bytes survive in order); virtual wall clock through the timestamp hook; batch = one operation.", ref="3/C06"),
